@@ -407,7 +407,10 @@ class CellConversion:
         if not isinstance(tree, (list, tuple)):
             return tree
         if tree[0] == '^':
-            cell = self.dic_cell_mcnp[int(tree[1])]
+            # a negative cell number denotes the complement of the complement
+            # of the cell (see GeomExpression.inverse()), i.e. the cell itself
+            cell_id = int(tree[1])
+            cell = self.dic_cell_mcnp[abs(cell_id)]
             if cell.lattice is not None:
                 # This is a complement of a lattice! What does that even mean
                 # We return a patently empty cell, which hopefully will later
@@ -416,6 +419,8 @@ class CellConversion:
                 assert len(surfaces) >= 1  # otherwise things are REALLY weird
                 return ['*', surfaces[0], -surfaces[0]]
             new_geom = self.pot_complement(cell.geometry)
+            if cell_id < 0:
+                return new_geom
             return new_geom.inverse()
         new_tree = [tree[0]]
         new_tree.extend(self.pot_complement(node) for node in tree[1:])
